@@ -6,6 +6,7 @@ import (
 	"flag"
 	"fmt"
 	"os"
+	"strings"
 	"time"
 
 	"verif/harness"
@@ -27,6 +28,7 @@ func main() {
 	flag.StringVar(&a.ReplayDir, "replaydir", "/verif/replays", "where replay files go")
 	flag.StringVar(&a.Tree, "tree", "", "tree hash")
 	flag.StringVar(&replay, "replay", "", "replay a file literally")
+	known := flag.String("known", "", "comma separated open known-finding keys")
 	list := flag.Bool("list", false, "list properties")
 	flag.Parse()
 	if *list {
@@ -37,6 +39,12 @@ func main() {
 	}
 	if replay != "" {
 		os.Exit(harness.Replay(replay, nil))
+	}
+	a.KnownKeys = map[string]bool{}
+	for _, k := range strings.Split(*known, ",") {
+		if k != "" {
+			a.KnownKeys[k] = true
+		}
 	}
 	a.Budget = time.Duration(budget * float64(time.Second))
 	os.Exit(harness.RunWorker(a))
